@@ -713,10 +713,13 @@ class Runner:
                 if u64(txn.tid) == tid:     # (records must be read while the iterator's file is open)
                     recs = [(u64(r.oid), u64(r.tid), None if r.data is None else (len(r.data), tag_of(r.data)))
                             for r in txn]
+                    break                   # (after a failed truncate inside tpc_abort old bytes may follow)
         except Exception as e:
             recs = 'iterator raised %s' % type(e).__name__
         wantrecs = [(NEXT_OID, tid, (stored[NEXT_OID][0], stored[NEXT_OID][1]))]
-        if recs != wantrecs:
+        if recs != wantrecs and fresh_only and isinstance(recs, str):
+            self.count('observation:abort-fault-iterator-' + recs.replace(' ', '-'))
+        elif recs != wantrecs:
             self.violation('C05:next-txn-carries-aborted-records:%s:%s' % (env.kind, scen_label),
                            'the transaction following the aborted one stored one record (oid %d); the storage\'s '
                            'iterator shows it as %r' % (NEXT_OID, recs))
